@@ -289,6 +289,55 @@ def h01t(c):
         c.ob("second-order.handed-over-at-most-once", len([o for o in delivered if o is b]) == (1 if ok_b else 0))
 
 
+def h01u(c, K=4):
+    """the 'consequently' clause through the framework's own enforcement: a strategy with the default max_live_trade_count=1 places
+    crossing BACK orders of symbolic size in new trades at any time and in its latest trade (also a completed one, re-used) whenever
+    nothing of its own is awaiting acknowledgement; packages are acknowledged (real simulated execution, everything fills) at symbolic
+    points: whatever reached the exchange loses no more than the selection limit"""
+    with cm.config_set(simulated=True, place_latency=0.0):
+        ms = c.cents("max_selection", 0, 5000000)
+        fl, (client,), (strategy,) = cm.new_sim(strategy_kwargs=dict(max_order_exposure=None, max_selection_exposure=ms, max_live_trade_count=1, max_trade_count=100))
+        deep = [{"price": 1000.0, "size": 10000000.0}]
+        bk = cm.book([cm.runner(1, atb=deep, atl=[{"price": 1.01, "size": 10000000.0}]), cm.runner(2)])
+        market = cm.add_market(fl, bk)
+        from flumine.order.trade import Trade
+        sent, trades = [], []
+
+        def ack():
+            while fl.handler_queue:
+                p = fl.handler_queue.pop(0)
+                sent.extend(p._orders)
+                client.execution.handler(p)
+            fl._process_simulated_orders(market)
+
+        with fl.simulated_datetime:
+            for k in range(K):
+                pending = any(o.status == OrderStatus.PENDING for o in market.blotter)
+                acts = ["new-trade", "acknowledge"] + (["latest-trade"] if trades and not pending else [])
+                act = c.choose("step%d" % k, acts)
+                with c.guard("step%d" % k):
+                    if act == "acknowledge":
+                        ack()
+                        continue
+                    tr = Trade(cm.MID, 1, 0, strategy) if act == "new-trade" else trades[-1]
+                    o = tr.create_order("BACK", cm.LimitOrder(2.0, c.cents("size%d" % k, 1, 5000000)))
+                    if market.place_order(o):
+                        c.cover("accepted")
+                        if tr not in trades:
+                            trades.append(tr)
+                        if act == "latest-trade":
+                            c.cover("trade-reused")
+                    else:
+                        c.cover("refused")
+            with c.guard("final-acknowledgement"):
+                ack()
+        loss = 0
+        for o in sent:
+            loss = loss + _order_loss(c, o)
+        c.ob("exchange-side.loss-within-selection-limit", loss <= ms + TOL, orders_sent=len(sent))
+        c.ob("each-order-sent-once", len(set(id(o) for o in sent)) == len(sent))
+
+
 OUT = ["more than n prior orders per selection", "prices outside the finite set in mode S / sizes outside the finite set in mode P",
        "Betdaq UPDATE (price/size change) path", "H01b covers one event on one order (composition over orders and events is the induction argument, not a query)"]
 HARNESSES = [
@@ -299,6 +348,8 @@ HARNESSES = [
     Harness("H01a-mkt", h01a, quick=dict(n=1, mode="S", market_limit=True, others=1, winners=(1,), sel_limit_too=False), thorough=dict(n=1, mode="S", market_limit=True, others=2),
             pattern="P2 inductive step", requires=["accepted", "refused"], wall_s=(300, 3000), max_paths=(150000, 5000000), outside=OUT),
     Harness("H01t", h01t, pattern="P3 short history (batching transaction -> real simulated execution)", requires=["accepted", "refused"], outside=OUT),
+    Harness("H01u", h01u, quick=dict(K=4), thorough=dict(K=5), pattern="P3 bounded history (default controls, real simulated execution)",
+            requires=["accepted", "refused", "trade-reused"], outside=OUT),
     Harness("H01b", h01b, pattern="P2 inductive step", requires=["event", "sp"], outside=OUT),
     Harness("H01r-S", h01r, quick=dict(n=1, mode="S"), thorough=dict(n=2, mode="S"), pattern="P2 inductive step", requires=["accepted", "refused"],
             wall_s=(300, 3000), max_paths=(150000, 5000000), outside=OUT),
